@@ -28,11 +28,12 @@ STRATEGIES = ['default', 'lazy', 'lazyref', 'prefetch', 'n0', 'ninf']
 
 # ------------------------------------------------------------------------------------------------ schema
 
-def gen_schema(rng):
+def gen_schema(rng, simple=False):
     nent = rng.choice([1, 2, 2, 3, 3, 4])
     ents = []
     for e in range(nent):
-        ents.append({'pk': 'comp' if rng.random() < 0.2 else 'int', 'lazy_s': rng.random() < 0.5, 'lazy_v': rng.random() < 0.2, 'sub': rng.random() < 0.3})
+        ents.append({'pk': 'comp' if rng.random() < 0.2 and not simple else 'int', 'lazy_s': rng.random() < 0.5, 'lazy_v': rng.random() < 0.2,
+                     'sub': rng.random() < 0.3 and not simple})
     rels = []
     for i in range(rng.choice([1, 2, 2, 3, 3, 4])):
         kind = rng.choice(['o2o', 'm2o', 'm2o', 'm2o', 'm2m', 'm2m', 'sym1', 'symm'])
@@ -461,6 +462,7 @@ def gen_history(rng, schema, n):
 
 # ------------------------------------------------------------------------------------------------ model tie
 PENDING = []
+LOADERS = []        # (driver request, real vals after, real sets after, description)
 LAZYREF_KEY = 'lazy-reference:one-to-many-collection-loads-empty'
 LAZYREF_WHAT = ('a one-to-many collection whose reverse reference attribute is declared lazy=True loads as EMPTY (and is_empty() is True, count() 0): the batch-load / is_empty SELECT '
                 'leaves the lazy reference column out, so _db_set_ never links the fetched rows to the collection, which is then marked fully loaded')
@@ -477,6 +479,7 @@ class Tie(object):
         self.ok = all(e['pk'] == 'int' and not e.get('sub') for e in schema['ents'])
     def oid(self, e, pk): return e * 1000 + pk
     def begin(self, w, path):
+        self.world_classes = w.classes
         if not self.ok: return
         # raw database contents -> model Db
         self.attr_index = {}
@@ -515,7 +518,8 @@ class Tie(object):
                             self.dbvals[(self.oid(e, oid_), self.aidx(cls, a))] = self.oid(te, tid)
         finally: con.close()
     def aidx(self, cls, a):
-        return 1 + [x.name for x in cls._root_._attrs_].index(a.name)
+        # globally unique attribute number: entity * 100 + position in the entity's attribute list
+        return 100 * (1 + self.world_classes.index(cls._root_)) + [x.name for x in cls._root_._attrs_].index(a.name)
     def session_snapshot(self, w):
         vals = []; sets = []
         for obj in w.db._get_cache().objects:
@@ -554,6 +558,14 @@ class Tie(object):
     def op(self, w, op):
         """execute one read with the model request prepared from the state before it"""
         k = op[0]
+        if self.ok and k == 'nav':
+            try:
+                o0 = w.fetch(op[1], op[2])
+                t = None if o0 is None else getattr(o0, op[3])
+            except Exception: t = None
+            if t is None: return exec_op(w, op)
+            r = self.op(w, ['attr', w.eidx(t), w.pkof(t), op[4]])        # the target is in the identity map: fetch() finds it without a query
+            return ['ok', r[1]] if r[0] == 'ok' else r
         if not self.ok or k not in ('attr', 'coll', 'count', 'empty', 'len', 'contains'):
             r = exec_op(w, op)
             if self.ok: self.coherent(w, op)
@@ -578,10 +590,18 @@ class Tie(object):
                 read['i'] = xi
                 sd = o._vals_.get(attr); rsd = x._vals_.get(attr.reverse)
                 via_reverse = sd is None and rsd is not None and rsd.is_fully_loaded
+        loader = self.predict_loader(w, k, o, attr, oid, ai)
         n0 = w.selects()
         try: r = do_read(w, op, o, x)
         except Exception as e: r = ['exc', type(e).__name__]
         loaded = w.selects() > n0
+        if loader is not None and r[0] == 'ok':
+            vals2, sets2 = self.session_snapshot(w)
+            lreq = {'op': 'loader', 'objs': self.objs, 'dbvals': [[o_, a_, v] for (o_, a_), v in self.dbvals.items()],
+                    'dbcolls': [[o_, c_, sorted(set(l))] for (o_, c_), l in self.dbcolls.items()], 'vals': vals, 'sets': sets,
+                    'rowAttrs': loader.pop('rowAttrs'), 'revColl': self.rev_coll(w), 'revOne': self.rev_one(w), 'revM2M': self.rev_m2m(w), 'loader': loader,
+                    'setkeys': sorted(set((s_[0], s_[1]) for s_ in sets2) | set((s_[0], s_[1]) for s_ in sets))}
+            LOADERS.append((lreq, vals2, sets2, {'op': op, 'strategy': self.strategy, 'loader': dict(loader), 'schema': self.schema}))
         sd = o._vals_.get(attr) if attr.is_collection else None
         after = None if sd is None else [sorted(self.oid(w.classes.index(type(i)), i.id) for i in sd), bool(sd.is_fully_loaded), sd.count]
         req = {'op': 'read', 'objs': self.objs, 'dbvals': [[o_, a_, v] for (o_, a_), v in self.dbvals.items()],
@@ -590,10 +610,79 @@ class Tie(object):
                                                       'ref_contains': k == 'contains' and not attr.reverse.is_collection, 'owner': oid}))
         self.coherent(w, op)
         return r
+    def rev_coll(self, w):
+        out = []
+        for cls in w.classes:
+            for a in cls._attrs_:
+                if a.reverse is not None and not a.is_collection and a.reverse.is_collection and a.columns:
+                    out.append([self.aidx(cls, a), self.aidx(a.reverse.entity, a.reverse)])
+        return out
+    def rev_one(self, w):
+        return [[self.aidx(cls, a), self.aidx(a.reverse.entity, a.reverse)] for cls in w.classes for a in cls._attrs_
+                if a.reverse is not None and not a.is_collection and not a.reverse.is_collection and a.columns]
+    def rev_m2m(self, w):
+        return [[self.aidx(cls, a), self.aidx(a.reverse.entity, a.reverse)] for cls in w.classes for a in cls._attrs_
+                if a.is_collection and a.reverse.is_collection]
+    def row_attrs(self, w, extra=None):
+        """object -> the column attributes a full row fetch brings: the non-lazy ones (plus the reference the rows are selected by)"""
+        out = []
+        for o in self.objs:
+            cls = w.classes[o // 1000]
+            out.append([o, [self.aidx(cls, a) for a in cls._attrs_ if not a.is_collection and a.columns and not a.is_pk and (not a.lazy or a is extra)]])
+        return out
+    def predict_loader(self, w, k, o, attr, oid, ai):
+        """which concrete loader the read is going to run (None: it is answered from the session, or the path is not modelled)"""
+        cache = w.db._get_cache()
+        cls = type(o)
+        if k == 'attr':
+            if attr in o._vals_ or attr.is_collection or not attr.columns: return None
+            if attr.lazy: return {'t': 'lazy', 'o': oid, 'a': ai, 'rowAttrs': self.row_attrs(w)}
+            seeds = sorted(self.oid(w.classes.index(type(x)), x.id) for x in cache.seeds[cls._pk_attrs_] if x is not o)
+            return {'t': 'rows', 'os': [oid] + seeds, 'rowAttrs': self.row_attrs(w)}
+        if k in ('coll', 'len'):
+            sd = o._vals_.get(attr)
+            if sd is not None and sd.is_fully_loaded: return None
+            counter = cache.collection_statistics.get(attr, 0)
+            th = attr.nplus1_threshold
+            owners = [oid]
+            if not attr.lazy and th is not None and counter >= th:      # Set.load: nplus1 batch over the identity map
+                for obj2 in cache.indexes[cls._pk_attrs_].values():
+                    if obj2 is o or obj2._status_ in core.created_or_deleted_statuses: continue
+                    sd2 = obj2._vals_.get(attr)
+                    if sd2 is not None and sd2.is_fully_loaded: continue
+                    owners.append(self.oid(w.classes.index(type(obj2)), obj2.id))
+            rev = attr.reverse
+            if rev.is_collection: return {'t': 'collLinks', 'owners': owners, 'c': ai, 'rowAttrs': self.row_attrs(w)}
+            return {'t': 'collRows', 'owners': owners, 'c': ai, 'rowAttrs': self.row_attrs(w, extra=rev)}
+        return None
     def check(self):
         PENDING.extend(self.requests); self.requests = []
     @staticmethod
+    def flush_loaders(ctx):
+        """the whole real session after a loading read = Model.Loading.applyLoader on the snapshot before it"""
+        if not LOADERS or not ctx.driver.ok:
+            del LOADERS[:]; return
+        reqs = list(LOADERS); del LOADERS[:]
+        outs = ctx.driver('C23', [r[0] for r in reqs])
+        for (req, vals2, sets2, d), out in zip(reqs, outs):
+            if 'driver_error' in out:
+                ctx.divergence('driver error (loader)', d, model=out, impl=None); continue
+            ctx.count('tie:loader:' + d['loader']['t'])
+            keys = set((x[0], x[1]) for x in req['dbvals'])
+            real_vals = sorted([o_, a_, v] for o_, a_, v in vals2 if (o_, a_) in keys)
+            model_vals = sorted(out['vals'])
+            real_sets = sorted([o_, c_, items, full, count] for o_, c_, items, full, count, absent in sets2)
+            model_sets = sorted(out['sets'])
+            if d['loader']['t'] in ('collRows', 'collLinks') and len(d['loader']['owners']) > 1: ctx.count('tie:loader:batch-of-owners')
+            if real_vals != model_vals:
+                dv = [x for x in real_vals if x not in model_vals][:4]; dm = [x for x in model_vals if x not in real_vals][:4]
+                ctx.divergence('loaded column values after a loading read: the real session and Model.Loading.applyLoader differ', d, model=dm, impl=dv)
+            elif real_sets != model_sets:
+                ds = [x for x in real_sets if x not in model_sets][:4]; dm = [x for x in model_sets if x not in real_sets][:4]
+                ctx.divergence('collections after a loading read: the real session and Model.Loading.applyLoader differ', d, model=dm, impl=ds)
+    @staticmethod
     def flush_pending(ctx):
+        Tie.flush_loaders(ctx)
         if not PENDING or not ctx.driver.ok:
             del PENDING[:]; return
         outs = ctx.driver('C23', [r[0] for r in PENDING])
@@ -776,7 +865,7 @@ def run(ctx):
         base_keys = len(ctx.violations) + len(ctx.known_hits)
         for it in range(n):
             for attempt in range(20):
-                schema = gen_schema(rng)
+                schema = gen_schema(rng, simple=(it % 2 == 0))       # every other schema is one the model tie covers (single int keys, no inheritance)
                 population = gen_population(rng, schema)
                 if populate(schema, population, base): break
                 ctx.count('population-rejected')
